@@ -19,6 +19,7 @@
  *   s<n> i<n> subject / issuer name id (0 = empty name)
  *   k<n>     subject public key id (1..NKEYS)
  *   g<n>     id of the key that signs (0 = signature bytes corrupted after signing)
+ *   t<n>     n octets (value 0) appended after the signature value inside the BIT STRING (the certificate is composed by hand)
  *   b<t> a<t> notBefore / notAfter (seconds)
  *   x<exts>  '-' or extensions separated by '+', each kind:critical[:arg[:arg]]
  *            critical: -1 absent, 0 FALSE, 1 TRUE
@@ -212,7 +213,7 @@ static blob_t make_cert(const char *tok) {
 		(void)save;
 	}
 	memset(serial, 0x11, sizeof serial); serial[0] = 0x01;
-	if (m || o || fld(tok, 'h', 0)) {
+	if (m || o || fld(tok, 'h', 0) || fld(tok, 't', 0) > 0) {
 		/* own composition: x509_cert_sign_to_der hard-wires the outer identifier */
 		static const uint8_t A0[] = { 0x30,0x0a,0x06,0x08,0x2a,0x81,0x1c,0xcf,0x55,0x01,0x83,0x75 };
 		static const uint8_t A1[] = { 0x30,0x0c,0x06,0x08,0x2a,0x81,0x1c,0xcf,0x55,0x01,0x83,0x75,0x05,0x00 };
@@ -224,7 +225,7 @@ static blob_t make_cert(const char *tok) {
 		static const uint8_t A7[] = { 0x30,0x0d,0x06,0x08,0x2a,0x81,0x1c,0xcf,0x55,0x01,0x83,0x75,0x02,0x01,0x05 };
 		static const struct { const uint8_t *p; size_t n; } algs[8] = { { A0, sizeof A0 }, { A1, sizeof A1 }, { A2, sizeof A2 }, { A3, sizeof A3 },
 			{ A4, sizeof A4 }, { A5, sizeof A5 }, { A6, sizeof A6 }, { A7, sizeof A7 } };
-		uint8_t *tbs, *tp; size_t clen = 0, tbslen = 0, hl = 0, total = 0; uint8_t sig[SM2_MAX_SIGNATURE_SIZE]; size_t siglen = 0; SM2_SIGN_CTX sctx;
+		uint8_t *tbs, *tp; size_t clen = 0, tbslen = 0, hl = 0, total = 0; uint8_t sig[SM2_MAX_SIGNATURE_SIZE + 64]; size_t siglen = 0; SM2_SIGN_CTX sctx; long trail = fld(tok, 't', 0);
 		if (m < 0 || m > 7 || o < 0 || o > 7) { fail_build = 1; return r; }
 		if (x509_explicit_version_to_der(0, (int)v, NULL, &clen) < 0 || asn1_integer_to_der(serial, (size_t)l, NULL, &clen) != 1
 			|| asn1_sequence_to_der(iss, isslen, NULL, &clen) != 1 || x509_validity_to_der((time_t)nb, (time_t)na, NULL, &clen) != 1
@@ -242,6 +243,8 @@ static blob_t make_cert(const char *tok) {
 		if (sm2_sign_init(&sctx, &keys[g ? g : 1], SM2_DEFAULT_ID, SM2_DEFAULT_ID_LENGTH) != 1 || sm2_sign_update(&sctx, tbs, tbslen) != 1
 			|| sm2_sign_finish(&sctx, sig, &siglen) != 1) { free(tbs); fail_build = 1; return r; }
 		if (g == 0) sig[siglen - 5] ^= 0x40;
+		if (trail < 0 || trail > 64) { free(tbs); fail_build = 1; return r; }
+		memset(sig + siglen, 0, (size_t)trail); siglen += (size_t)trail;
 		clen = tbslen + algs[o].n; hl = 0;
 		if (asn1_bit_octets_to_der(sig, siglen, NULL, &clen) != 1 || asn1_sequence_header_to_der(clen, NULL, &hl) != 1) { free(tbs); fail_build = 1; return r; }
 		total = hl + clen; out = malloc(total); q = out; r.n = 0;
